@@ -143,6 +143,8 @@ class Unit:
                 it["proved_by"] = it.get("proved_by", "unit " + cf)
         self.features = set(features or splice.DEFAULT_FEATURES) - (splice.OFF_FEATURES - {"serde_serialization"})
         self.features -= {"serde_serialization", "bench", "rand"}
+        # a unit may verify the code as compiled with some default features OFF (stated in the evidence through the cfg log)
+        self.features -= set(self.desc.get("features_off", []))
         self.cfg_log = []
         self.desugar_counts = {}
         self.items = []        # metadata per extracted item
